@@ -4,7 +4,7 @@ from ..oracles import c10
 MODELS = ["Beam", "BeamTables", "Stress", "Transfer", "Constants"]
 STREAMS = [beam.stream_element, beam.stream_fem, transfer.stream_disp_transfer]
 ORACLES = [c10.oracle_equilibrium, c10.oracle_closed_forms]
-UNPROVED = ["nodal exactness of the cantilever solution for ANY number of collinear elements is validated by the oracle (the one-element closed forms are proved)",
+UNPROVED = ["nodal exactness for any number of collinear elements is proved for the assembled element equations in the element's own frame (C10_cantilever_nodal_exact_any_number_of_elements, uniform section); its transport through the direction-cosine matrix to an arbitrary orientation, and non-uniform sections, are validated by the oracle",
             "tube rotation covariance is validated by the oracle only",
             "existence / uniqueness of the solution (invertibility of the augmented matrix) is a hypothesis: theorems are about any solution"]
 ASSUMPTIONS = ["element not parallel to the global x axis, non-zero length (the code's own restriction)",
